@@ -44,13 +44,13 @@ func modArgs(scratch string) ([]string, error) {
 // the others by the sequential enumerator (seq binary, plain build).
 var engineChecks = map[string]bool{
 	"C01": true, "C02": true, "C03": true, "C04": true, "C05": true, "C06": true, "C07": true,
-	"C10": true, "C11": true, "C12": true, "C13": true, "C15": true, "C16": true, "C19": true,
+	"C10": true, "C11": true, "C12": true, "C13": true, "C15": true, "C16": true, "C18": true, "C19": true,
 }
 
 // raceChecks get the free-running -race pass after their exhaustive part.
 var raceChecks = map[string]bool{
 	"C01": true, "C02": true, "C03": true, "C04": true, "C05": true, "C06": true, "C07": true,
-	"C10": true, "C11": true, "C12": true, "C13": true, "C15": true, "C16": true, "C19": true,
+	"C10": true, "C11": true, "C12": true, "C13": true, "C15": true, "C16": true, "C18": true, "C19": true,
 }
 
 // seqChecks have a sequential-enumeration part (for C11 and C13 in addition to the engine part).
